@@ -21,7 +21,7 @@ impl Rng {
             1 => 1,
             2 => *self.pick(&[31usize, 32, 33]),
             3 => *self.pick(&[63usize, 64, 65]),
-            4 => *self.pick(&[95usize, 96, 97, 127, 128, 129]),
+            4 => *self.pick(&[95usize, 96, 97, 127, 128, 129, 255, 256, 257, 511, 512, 513, 1024, 1025]),
             5 => self.below(40) as usize,
             6 => 32 * (self.below(8) as usize),
             7 => 32 * (self.below(8) as usize) + 1,
